@@ -15,6 +15,10 @@
 
 #include "core.hpp"
 
+#ifndef SIM_PTR_T
+#  define SIM_PTR_T uint32_t
+#endif
+
 namespace sim {
 
 inline thread_local Ctx* g_ctx = nullptr; // current run (per thread: the threads world gives every thread its own)
@@ -204,7 +208,7 @@ public:
   using T_LongLongType = int64_t;
   using T_LongType = int32_t;
   using T_IntType = int32_t;
-  using T_PointerType = uint32_t;
+  using T_PointerType = SIM_PTR_T;
   using T_ShortType = int16_t;
   using can_grant_deny_access = void;
   using needs_internal_lookup_symbol = void;
@@ -437,9 +441,9 @@ protected:
   inline void impl_free_in_sandbox(T_PointerType p)
   {
     SIM_YIELD("impl_free");
-    auto it = used.find(p);
-    sim::bev("backend free(%u)%s", p, it == used.end() ? " UNKNOWN" : "");
-    last_free_rep = p;
+    auto it = used.find((uint32_t)p);
+    sim::bev("backend free(%llu)%s", (unsigned long long)p, it == used.end() ? " UNKNOWN" : "");
+    last_free_rep = (uint32_t)p;
     n_frees++;
     if (it != used.end())
       used.erase(it);
@@ -581,7 +585,7 @@ protected:
       return nullptr;
     std::memcpy(mem.gbase + off, (const void*)src, bytes);
     success = true;
-    sim::bev("backend grant -> %u", off);
+    sim::bev("backend grant -> %u", (unsigned)off);
     return reinterpret_cast<T*>(mem.base + off);
   }
 
